@@ -3,11 +3,16 @@
 import json, os, re, shutil, subprocess, sys
 needs = json.load(open('/verif/seeded/needs.json'))
 src = '/tmp/seed'
+src2 = '/tmp/seed2'
 out = '/verif/seeded'
 os.makedirs(out, exist_ok=True)
 summary = []
 for sid in sorted(needs):
     d = os.path.join(src, sid)
+    if not os.path.isdir(d):
+        d = os.path.join(src2, sid)
+    if not os.path.isdir(d):
+        d = os.path.join(out, sid)
     prop = sid.split('-')[0]
     p = subprocess.run(['/verif/scripts/seedcheck.sh', d, prop], capture_output=True, text=True)
     o = p.stdout + p.stderr
@@ -34,7 +39,8 @@ for sid in sorted(needs):
     meta = {
         'id': sid, 'property': prop,
         'change': needs[sid][0], 'needs_to_manifest': needs[sid][1],
-        'origin': 'written by an independent sub-agent given only the property text and a scratch worktree of /repo (nothing from /verif)',
+        'origin': 'written by an independent sub-agent given only the property text and a scratch worktree of /repo (nothing from /verif)' + ('; round 2: told which round-1 ideas to avoid' if sid[-1] in 'xy' else ''),
+        'round': 2 if sid[-1] in 'xy' else 1,
         'files': {'patch': 'patch.diff', 'demonstration': demos, 'author_notes': 'NOTES.md'},
         'confirmed': confirmed,
         'what_was_run': [
